@@ -180,6 +180,9 @@ def family(tier='quick'):
     out.append(T('m:ref_nodoc', 'MetaData M {\n    u16 a `d`,\n    a b,\n}\n\nroot packet Root {\n    b x,\n}\n', wellformed=False))
     out.append(T('m:dup', 'MetaData M {\n    u16 a `d`,\n    u32 a `e`,\n}\n\nroot packet Root {\n    a x,\n}\n', [('dup-meta', 3, 3)]))
     out.append(T('m:dup_two_blocks', 'MetaData M {\n    u16 a `d`,\n}\n\nMetaData N {\n    string a `e`,\n}\n\nroot packet Root {\n    a x,\n}\n', [('dup-meta', 6, 6)]))
+    out.append(T('m:dup_ref_then_typed', 'MetaData M {\n    u32 Base `b`,\n    Base Price `p`,\n    u64 Qty `q`,\n    u64 Price `p2`,\n}\n\nroot packet Root {\n    Price Px,\n    Qty Q,\n}\n', [('dup-meta', 5, 5)]))
+    out.append(T('m:dup_typed_then_ref', 'MetaData M {\n    u32 Base `b`,\n    u64 Price `p`,\n    u64 Qty `q`,\n    Base Price `p2`,\n}\n\nroot packet Root {\n    Price Px,\n    Qty Q,\n}\n', [('dup-meta', 5, 5)]))
+    out.append(T('m:dup_ref_ref', 'MetaData M {\n    u32 Base `b`,\n    Base Price `p`,\n    u64 Qty `q`,\n    Qty Price `p2`,\n}\n\nroot packet Root {\n    Price Px,\n    Qty Q,\n}\n', [('dup-meta', 5, 5)]))
     out.append(T('m:ref_undeclared', 'MetaData M {\n    nothing b `d`,\n}\n\nroot packet Root {\n    b x,\n}\n', wellformed=False))
     out.append(T('m:ref_forward', 'MetaData M {\n    a b `d`,\n    u8 a `e`,\n}\n\nroot packet Root {\n    b x,\n}\n', wellformed=False))
     out.append(T('m:empty', 'MetaData M {\n}\n\nroot packet Root {\n    u8 a,\n}\n'))
@@ -196,6 +199,12 @@ def family(tier='quick'):
     out.append(T('p:two_roots', 'root packet Root {\n    u8 a,\n}\n\nroot packet Second {\n    u16 y,\n}\n', [('multi-root', 5, 7)]))
     out.append(T('p:three_roots', 'root packet Root {\n    u8 a,\n}\n\npacket M {\n    u8 a,\n}\n\nroot packet Second {\n    u16 y,\n}\n\nroot packet Third {\n    u16 y,\n}\n',
                  [('multi-root', 9, 11), ('multi-root', 13, 15)]))
+    dupin = 'root packet A {\n    u8 t,\n    Item {\n        u8 k,\n        B b,\n    },\n}\n\npacket C {\n    u16 n,\n    Item {\n        %s\n        B b2,\n    },\n}\n\npacket B {\n    u8 y,\n}\n'
+    out.append(T('p:inline_dup_objfield', dupin % 'u8 pad,', note='two packets declare an inline object of the same name; the later one holds an object field'))
+    out.append(T('p:inline_dup_undeclared', dupin % 'Missing Reason,', [('undeclared-packet', 12, 12)]))
+    out.append(T('p:inline_dup_nested', 'root packet A {\n    Item {\n        u8 k,\n        Item {\n            B b,\n        },\n    },\n}\n\npacket B {\n    u8 y,\n}\n', wellformed=False))
+    out.append(T('p:inline_like_packet', 'root packet A {\n    u8 t,\n    B {\n        C c,\n    },\n}\n\npacket B {\n    u8 y,\n}\n\npacket C {\n    u8 z,\n}\n', wellformed=False))
+    out.append(T('p:inline_dup_match', 'root packet A {\n    u8 t,\n    Item {\n        u8 k,\n    },\n}\n\npacket C {\n    Item {\n        u8 q,\n        match q as body {\n            1 : B,\n            2 : Nope,\n        },\n    },\n}\n\npacket B {\n    u8 y,\n}\n', [('undeclared-packet', 13, 13)]))
     out.append(T('p:no_root', 'packet A {\n    u8 x,\n}\n\npacket B {\n    A a,\n}\n', wellformed=False))
     out.append(T('p:mutual_rec', 'root packet A {\n    B b,\n}\n\npacket B {\n    A a,\n}\n', wellformed=False))
     out.append(T('p:snake_collide', 'root packet Root {\n    MsgA a,\n    Msg_a b,\n}\n\npacket MsgA {\n    u8 x,\n}\n\npacket Msg_a {\n    u16 y,\n}\n', wellformed=False))
@@ -208,6 +217,9 @@ def family(tier='quick'):
             '        1 : Other, // after pair', '        [2, 3] : Third,', '    }, // after match', '    Sub { // after inline brace', '        u8 x, // inner',
             '    }, // after inline', '} // after packet', '', '// before aux', 'packet Other {', '    u8 v,', '}', '', 'packet Third {', '    string s,', '}', '// trailing comment']
     out.append(T('c:everywhere', '\n'.join(base) + '\n'))
+    import re as _re
+    out.append(T('c:blank_comments', _re.sub(r'//[^\n]*', '//   ', '\n'.join(base)) + '\n'))
+    out.append(T('c:tab_comments', _re.sub(r'//[^\n]*', '//\t', '\n'.join(base)) + '\n'))
     out.append(T('c:empty_comments', '//\nroot packet Root {\n    //\n    u8 a, //\n    //   \n}\n//'))
     out.append(T('c:meta_comments', 'MetaData M { // brace\n    // before entry\n    u16 a `d`, // after entry\n    a b `e`,\n} // after meta\n\nroot packet Root {\n    b x,\n}\n'))
     out.append(T('c:between_tokens', 'root // c1\npacket // c2\nRoot // c3\n{\n    u8 // c4\n    a // c5\n    , // c6\n}\n'))
